@@ -91,7 +91,7 @@ Proof. exact agree_example. Qed.
                   key_exists / key_not_found) and an ExpectedPosition with offset < 2^53 and a NON-EMPTY
                   epoch (suppression position_mismatch with the current entry; finding
                   map-cas-empty-epoch otherwise); an unkeyed one carries neither
-       Remove     non-empty key, no idempotency key (testing only), channel exists (finding map-remove-missing-channel);
+       Remove     non-empty key, channel exists; with ai, an IdempotencyKey as for Publish (finding map-remove-missing-channel);
                   an ExpectedPosition as for Publish (position_mismatch / key_not_found / removal)
        ReadStream Limit < 2^31; the epoch both sides would create is the same string (epochs are
                   compared up to renaming); existing channel: any since when forward
@@ -168,11 +168,15 @@ Definition w_idem : list mop :=
    MPublish "a" "k1" (mkMP "i4" 0 "d6" false 0 "" 0 "if_new" false None) "N5" 1000;
    MPublish "a" "k1" (mkMP "i4" 0 "d7" false 0 "" 0 "" false None) "N6" 1000;
    MPublish "b" "k1" (poi "e1" "i1") "N7" 1000; MPublish "a" "k2" (mkMP "i2" 0 "d8" false 0 "" 0 "" false None) "N8" 1000;
+   MRemove "a" "k2" (mkMR "r1" 0 None) "N81" 1000; MRemove "a" "k2" (mkMR "r1" 0 None) "N82" 1000;
+   MRemove "a" "nokey" (mkMR "r2" 0 None) "N83" 1000; MRemove "a" "k1" (mkMR "r2" 7000 (Some (4%N, "N0"))) "N84" 1000;
    rd_state "a" "N9"; rd_stream "a" "N10"].
 Example C23_idem_domain_example :
   keys_okb (chans w_idem) = true /\ res_okb (idems w_idem) = true /\ run_ok cfP true mm_init w_idem = true /\
   redis_map_run cfP w_idem = rm_run map_shallow cfP rinit w_idem /\
   map (fun r => match r with MUpd o _ s rs _ => (o, s, rs) | _ => (0%N, false, "?") end) (firstn 9 (mem_map_run cfP w_idem)) =
     [(1%N, false, ""); (1%N, true, "idempotency"); (2%N, false, ""); (3%N, false, ""); (3%N, true, "idempotency");
-     (3%N, true, "key_exists"); (4%N, false, ""); (1%N, false, ""); (2%N, true, "idempotency")].
+     (3%N, true, "key_exists"); (4%N, false, ""); (1%N, false, ""); (2%N, true, "idempotency")] /\
+  map (fun r => match r with MUpd o _ s rs _ => (o, s, rs) | _ => (0%N, false, "?") end) (firstn 4 (skipn 9 (mem_map_run cfP w_idem))) =
+    [(5%N, false, ""); (5%N, true, "idempotency"); (5%N, true, "key_not_found"); (6%N, false, "")].
 Proof. vm_compute. repeat split; reflexivity. Qed.
